@@ -789,4 +789,425 @@ Section SuperSched.
         pose proof (proj2 (HX a Ha) b Hin2) as Hb. destruct (Hdone b Hb) as [acc [xacc Est]]. destruct (done_needs s st b acc xacc I Hb Est) as [Hn1 Hn2].
         assert (Hrc2 : rcvd2 (st b) a = true) by (apply rcvd2_In; apply (need2_all s st b I Hn2); apply X_In; auto). rewrite Hrc2. rewrite andb_false_r. reflexivity.
   Qed.
+  (* ---- a decreasing step always exists: reachability of a final state --------------------------------------------------------------------------- *)
+  Definition at_fuel_mark (s : pst) (r : Z) : Prop := exists k, ppr s r = Do (Coll K_FUEL (-1) []) k.
+
+  Definition sphi (r : Z) (st : sstate) : nat :=
+    match st with
+    | SSend1 j => 3 * (length (R r) - j) + 3 * length (extra r) + 2 * (length (T r) + length (X r)) + 2
+    | SSend2 j => 3 * (length (extra r) - j) + 2 * (length (T r) + length (X r)) + 2
+    | SLoop _ _ _ AtTrue => 2 * (need1 r st + need2 r st) + (if (need1 r st =? 0)%nat then 1 else 0)
+    | SLoop _ _ _ AtExtra => 2 * (need1 r st + need2 r st) + (if (need2 r st =? 0)%nat then 1 else 0)
+    | SDone _ _ => 0
+    | SOut => 0
+    end%nat.
+  Definition SPhi (st : Z -> sstate) : nat := list_sum (map (fun r => sphi r (st r)) (ranks P)).
+  Definition super_bound : nat := list_sum (map (fun r => 3 * length (R r) + 3 * length (extra r) + 2 * (length (T r) + length (X r)) + 2)%nat (ranks P)).
+
+  Lemma SPhi_upd st r new : 0 <= r < P -> (SPhi (upds st r new) + sphi r (st r) = SPhi st + sphi r new)%nat.
+  Proof.
+    intros Hr. unfold SPhi.
+    pose proof (l_sum_upd_eq (fun y => sphi y (st y)) (fun y => sphi y (upds st r new y)) (ranks P) r (ranks_NoDup P) (proj2 (in_ranks P r) Hr)) as H.
+    cbv beta in H. rewrite upds_same in H. apply H. intros y Hy. rewrite upds_other by exact Hy. reflexivity.
+  Qed.
+
+  Lemma sphi_le r st : (sphi r st <= 3 * length (R r) + 3 * length (extra r) + 2 * (length (T r) + length (X r)) + 2)%nat.
+  Proof.
+    destruct st as [j|j|f acc xacc p|acc xacc|]; cbn [sphi]; try lia. unfold need1, need2. cbn [acc_of xacc_of].
+    destruct p; [destruct (Nat.eqb_spec (length (T r) - length acc) 0)|destruct (Nat.eqb_spec (length (X r) - length xacc) 0)]; lia.
+  Qed.
+  Lemma SPhi_le st : (SPhi st <= super_bound)%nat.
+  Proof. unfold SPhi, super_bound. apply SemRounds.list_sum_le. intros r _. apply sphi_le. Qed.
+
+  Lemma sphi_mkloop r f acc xacc : (sphi r (mkloop r f acc xacc) <= 2 * ((length (T r) - length acc) + (length (X r) - length xacc)) + 1)%nat.
+  Proof.
+    destruct (mkloop_cases r f acc xacc) as [[-> _]|[-> _]]; cbn [sphi]; [|lia]. unfold need1, need2. cbn [acc_of xacc_of].
+    destruct (Nat.eqb_spec (length (T r) - length acc) 0); lia.
+  Qed.
+
+  Lemma super_move s st : SInv s st ->
+    pfinal s \/ (exists r, 0 <= r < P /\ at_fuel_mark s r) \/
+    (exists r s' new pb, 0 <= r < P /\ step_p P super_poll super_stags s r s' /\ sgstep r (st r) new pb /\ SInv s' (upds st r new) /\
+                         (sphi r new < sphi r (st r))%nat).
+  Proof.
+    intros I.
+    destruct (find_rank P (fun r => is_send (st r))) as [[r [Hr Hp]]|Hnosend].
+    { right. right. destruct (st r) as [j|j| | |] eqn:Est; try discriminate.
+      - pose proof (s_send1 s st I r j Est) as Hj. exists r. eexists. exists (next1 r (S j)), true. split; [exact Hr|].
+        split; [eapply stepp_send; apply (shape_send1 s st r j I Est)|]. split; [rewrite Est; constructor|]. split; [exact (SInv_send1 s st r j I Est)|].
+        rewrite Est. cbn [sphi]. unfold next1. destruct (Nat.ltb_spec (S j) (length (R r))); [cbn [sphi]; lia|].
+        unfold enter2. destruct (Nat.ltb_spec 0 (length (extra r))); [cbn [sphi]; lia|]. pose proof (sphi_mkloop r fuel [] []) as H1. cbn [length] in H1. lia.
+      - pose proof (s_send2 s st I r j Est) as Hj. exists r. eexists. exists (next2 r (S j)), true. split; [exact Hr|].
+        split; [eapply stepp_send; apply (shape_send2 s st r j I Est)|]. split; [rewrite Est; constructor|]. split; [exact (SInv_send2 s st r j I Est)|].
+        rewrite Est. cbn [sphi]. unfold next2. destruct (Nat.ltb_spec (S j) (length (extra r))); [cbn [sphi]; lia|].
+        pose proof (sphi_mkloop r fuel [] []) as H1. cbn [length] in H1. lia. }
+    destruct (find_rank P (fun r => negb (is_done (st r)))) as [[b [Hb Hp]]|Hall].
+    2:{ left. intros r. rewrite (s_prog s st I r). destruct (Z_le_dec 0 r) as [H0|H0]; [destruct (Z_lt_dec r P) as [H1|H1]|].
+        - specialize (Hall r (conj H0 H1)). destruct (st r) as [?|?|? ? ? ?|acc xacc|]; try discriminate. cbn [prog_of]. apply SK_ret.
+        - rewrite (proj2 (s_out s st I r)) by lia. cbn [prog_of]. eauto.
+        - rewrite (proj2 (s_out s st I r)) by lia. cbn [prog_of]. eauto. }
+    apply negb_true_iff in Hp. destruct (st b) as [j|j|f acc xacc p|acc xacc|] eqn:Est; try discriminate.
+    - specialize (Hnosend b Hb). rewrite Est in Hnosend. discriminate.
+    - specialize (Hnosend b Hb). rewrite Est in Hnosend. discriminate.
+    - pose proof (queue_need s st b I Hb) as Hqn. rewrite Est in Hqn. cbn [acc_of xacc_of] in Hqn.
+      destruct p.
+      + destruct f as [|f]; [right; left; exists b; split; [exact Hb|]; pose proof (s_prog s st I b) as Hk; rewrite Est in Hk; cbn [prog_of super_loop] in Hk; eexists; exact Hk|].
+        right. right. pose proof (shape_true s st b f acc xacc I Est) as Hprog.
+        assert (Hq : 0 < queue b acc xacc) by (apply (s_q s st I b (S f) acc xacc AtTrue Est); right; discriminate).
+        destruct (Nat.eq_dec (need1 b (st b)) 0) as [Hn|Hn].
+        * (* all items received: the TRUE poll is empty, on to the EXTRA poll, where a message is pending *)
+          exists b. eexists. exists (SLoop f acc xacc AtExtra), false. split; [exact Hb|].
+          split; [eapply stepp_miss; [exact Hprog|apply poll_TT|apply (nothing_TT s st b I Hn)]|]. split; [rewrite Est; constructor|].
+          cbn [hd]. change (-1 <? 0) with true. cbv iota. split.
+          -- apply (SInv_keep s st b (SLoop f acc xacc AtExtra)); try assumption; try (rewrite Est; reflexivity); try discriminate; try (intros; discriminate).
+             intros f' acc' xacc' p' E _. injection E as <- <- <- <-. exact Hq.
+          -- rewrite Est in Hn |- *. cbn [sphi]. rewrite Hn. cbn [Nat.eqb]. destruct (Nat.eqb_spec (need2 b (SLoop (S f) acc xacc AtTrue)) 0) as [E|E]; [lia|].
+             unfold need1, need2 in *. cbn [acc_of xacc_of] in *. destruct (Nat.eqb_spec (length (X b) - length xacc) 0); lia.
+        * destruct (pending_TT s st b I Hnosend Hb Hn) as [a [Ha Hch]].
+          destruct (SInv_hit1 s st b f acc xacc a (sitem a b) [] I Est Hch) as [H0 [_ Hinv]].
+          exists b. eexists. exists (mkloop b f ((a, sitem a b) :: acc) xacc), true. split; [exact Hb|].
+          split; [eapply stepp_hit; [exact Hprog|apply poll_TT|exact Hch]|]. split; [rewrite Est; constructor|].
+          cbn [hd tl]. replace (a <? 0) with false by lia. rewrite prog_mkloop, queue_cons1 in Hinv. split; [exact Hinv|].
+          pose proof (sphi_mkloop b f ((a, sitem a b) :: acc) xacc) as H1. rewrite Est in Hn |- *. cbn [sphi]. unfold need1, need2 in *. cbn [acc_of xacc_of length] in *.
+          destruct (Nat.eqb_spec (length (T b) - length acc) 0); lia.
+      + right. right. pose proof (s_prog s st I b) as Hprog. rewrite Est in Hprog. cbn [prog_of] in Hprog.
+        pose proof (s_q s st I b f acc xacc AtExtra Est (or_introl eq_refl)) as Hq.
+        destruct (Nat.eq_dec (need2 b (st b)) 0) as [Hn|Hn].
+        * exists b. eexists. exists (SLoop f acc xacc AtTrue), false. split; [exact Hb|].
+          split; [eapply stepp_miss; [exact Hprog|apply poll_TE|apply (nothing_TE s st b I Hn)]|]. split; [rewrite Est; constructor|].
+          cbn [hd]. change (-1 <? 0) with true. cbv iota. split.
+          -- apply (SInv_keep s st b (SLoop f acc xacc AtTrue)); try assumption; try (rewrite Est; reflexivity); try discriminate; try (intros; discriminate).
+             intros f' acc' xacc' p' E _. injection E as <- <- <- <-. exact Hq.
+          -- rewrite Est in Hn |- *. cbn [sphi]. rewrite Hn. cbn [Nat.eqb]. unfold need1, need2 in *. cbn [acc_of xacc_of] in *.
+             destruct (Nat.eqb_spec (length (T b) - length acc) 0); lia.
+        * destruct (pending_TE s st b I Hnosend Hb Hn) as [a [Ha Hch]].
+          destruct (SInv_hit2 s st b f acc xacc a [] [] I Est Hch) as [H0 Hinv].
+          exists b. eexists. exists (mkloop b f acc (a :: xacc)), true. split; [exact Hb|].
+          split; [eapply stepp_hit; [exact Hprog|apply poll_TE|exact Hch]|]. split; [rewrite Est; constructor|].
+          cbn [hd]. replace (a <? 0) with false by lia. rewrite prog_mkloop, queue_cons2 in Hinv. split; [exact Hinv|].
+          pose proof (sphi_mkloop b f acc (a :: xacc)) as H1. rewrite Est in Hn |- *. cbn [sphi]. unfold need1, need2 in *. cbn [acc_of xacc_of length] in *.
+          destruct (Nat.eqb_spec (length (X b) - length xacc) 0); lia.
+    - exfalso. apply (proj1 (s_out s st I b) Est). exact Hb.
+  Qed.
+
+  (* ---- the fuel -------------------------------------------------------------------------------------------------------------------------------- *)
+  Definition floor (st : sstate) : nat := match st with SLoop f _ _ _ => f | _ => fuel end.
+  Definition fuel_inv (n : nat) (st : Z -> sstate) : Prop := forall r, (fuel <= floor (st r) + n)%nat.
+
+  Lemma floor_mkloop r f acc xacc : floor (mkloop r f acc xacc) = fuel \/ floor (mkloop r f acc xacc) = f.
+  Proof. destruct (mkloop_cases r f acc xacc) as [[-> _]|[-> _]]; cbn [floor]; auto. Qed.
+
+  Lemma sgstep_floor r old new pb : sgstep r old new pb -> (floor new = fuel \/ floor old <= S (floor new))%nat.
+  Proof.
+    intros H. inversion H; subst; cbn [floor].
+    - unfold next1, enter2. destruct (_ <? _)%nat; [cbn [floor]; lia|]. destruct (_ <? _)%nat; [cbn [floor]; lia|]. destruct (floor_mkloop r fuel [] []); lia.
+    - unfold next2. destruct (_ <? _)%nat; [cbn [floor]; lia|]. destruct (floor_mkloop r fuel [] []); lia.
+    - destruct (floor_mkloop r f (x :: acc) xacc); lia.
+    - lia.
+    - destruct (floor_mkloop r f acc (x :: xacc)); lia.
+    - lia.
+  Qed.
+
+  Lemma fuel_inv_init : fuel_inv 0 sst0.
+  Proof.
+    intros r. unfold sst0. destruct (inr P r); [|cbn [floor]; lia]. unfold next1, enter2.
+    destruct (_ <? _)%nat; [cbn [floor]; lia|]. destruct (_ <? _)%nat; [cbn [floor]; lia|]. destruct (floor_mkloop r fuel [] []); lia.
+  Qed.
+
+  Lemma fuel_inv_step n st r new pb : fuel_inv n st -> sgstep r (st r) new pb -> fuel_inv (S n) (upds st r new).
+  Proof.
+    intros Hf Hg y. unfold upds. destruct (Z.eqb_spec y r) as [Ey|Ey]; [subst y|specialize (Hf y); lia].
+    pose proof (sgstep_floor r _ _ _ Hg). specialize (Hf r). lia.
+  Qed.
+
+  Lemma SInv_run_fuel : forall n s0 s st k, SInv s0 st -> fuel_inv k st -> run_p P super_poll super_stags n s0 s ->
+    exists st', SInv s st' /\ fuel_inv (k + n) st'.
+  Proof.
+    induction n as [|n IH]; intros s0 s st k I Hf Hr; inversion Hr as [|? ? r s1 ? Hs Hrest]; subst.
+    - exists st. rewrite Nat.add_0_r. auto.
+    - destruct (SInv_step s0 st r s1 I Hs) as [new [pb [Hg [_ I1]]]].
+      destruct (IH s1 s _ (S k) I1 (fuel_inv_step k st r new pb Hf Hg) Hrest) as [st' [I' Hf']]. exists st'. split; [exact I'|].
+      replace (k + S n)%nat with (S k + n)%nat by lia. exact Hf'.
+  Qed.
+
+  Lemma fuel_mark_floor s st r : SInv s st -> 0 <= r < P -> at_fuel_mark s r -> floor (st r) = 0%nat.
+  Proof.
+    intros I Hr [k Hk]. destruct (st r) as [j|j|f acc xacc p|acc xacc|] eqn:Est.
+    - rewrite (shape_send1 s st r j I Est) in Hk. discriminate.
+    - rewrite (shape_send2 s st r j I Est) in Hk. discriminate.
+    - destruct p; [destruct f as [|f]; [reflexivity|]|].
+      + rewrite (shape_true s st r f acc xacc I Est) in Hk. discriminate.
+      + rewrite (s_prog s st I r), Est in Hk. cbn [prog_of] in Hk. discriminate.
+    - exfalso. rewrite (s_prog s st I r), Est in Hk. cbn [prog_of] in Hk. destruct (SK_ret r (rev acc)) as [o Ho]. rewrite Ho in Hk. discriminate.
+    - exfalso. apply (proj1 (s_out s st I r) Est). exact Hr.
+  Qed.
+
+  Theorem super_reach_final : forall k s st n, SInv s st -> fuel_inv n st -> SPhi st = k -> (n + k < fuel)%nat ->
+    exists m s', run_p P super_poll super_stags m s s' /\ (m <= k)%nat /\ pfinal s'.
+  Proof.
+    induction k as [k IH] using lt_wf_ind. intros s st n I Hf Hk Hfuel.
+    destruct (super_move s st I) as [Hfin|[[r [Hr Hm]]|[r [s1 [new [pb [Hrr [Hs [Hg [I1 Hlt0]]]]]]]]]].
+    - exists 0%nat, s. split; [constructor|]. split; [lia|exact Hfin].
+    - exfalso. pose proof (fuel_mark_floor s st r I Hr Hm) as H0. specialize (Hf r). lia.
+    - pose proof (SPhi_upd st r new Hrr) as Hu.
+      destruct (IH (SPhi (upds st r new)) ltac:(lia) s1 _ (S n) I1 (fuel_inv_step n st r new pb Hf Hg) eq_refl ltac:(lia)) as [m [s' [Hr [Hle Hend]]]].
+      exists (S m), s'. split; [econstructor; eassumption|]. split; [lia|exact Hend].
+  Qed.
+
+  (* SUPERSET, EVERY SCHEDULE (no fairness assumed): for every run of n steps with n + super_bound < fuel (a) a final state is correct,
+     (b) no rank is blocked, (c) a final state is reachable by at most super_bound further steps *)
+  Theorem super_every_schedule n s : run_p P super_poll super_stags n super_sys s -> (n + super_bound < fuel)%nat ->
+    (pfinal s ->
+       (forall r, 0 <= r < P -> exists o, Permutation o (transpose P R r) /\ (sorted = true -> o = transpose P R r) /\
+                                         ppr s r = Ret (result o (if hp then map (fun q => pay q r) o else []))) /\
+       (forall a b t, pch s a b t = [])) /\
+    (forall r, 0 <= r < P -> (exists o, ppr s r = Ret o) \/ exists s', step_p P super_poll super_stags s r s') /\
+    (exists m s', run_p P super_poll super_stags m s s' /\ (m <= super_bound)%nat /\ pfinal s').
+  Proof.
+    intros Hr Hfuel. destruct (SInv_run_fuel n super_sys s sst0 0 SInv_init fuel_inv_init Hr) as [st [I Hf]]. cbn [Nat.add] in Hf.
+    split; [exact (super_final n s Hr)|]. split.
+    - intros r Hrr. destruct (st r) as [j|j|f acc xacc p|acc xacc|] eqn:Est.
+      + right. eexists. eapply stepp_send. apply (shape_send1 s st r j I Est).
+      + right. eexists. eapply stepp_send. apply (shape_send2 s st r j I Est).
+      + right. destruct p.
+        * destruct f as [|f]; [exfalso; specialize (Hf r); rewrite Est in Hf; cbn [floor] in Hf; lia|].
+          pose proof (shape_true s st r f acc xacc I Est) as Hp.
+          destruct (nothing P (pch s) r TT) eqn:En; [eexists; eapply stepp_miss; [exact Hp|apply poll_TT|exact En]|].
+          assert (Hex : exists src m q, pch s src r TT = m :: q).
+          { unfold nothing in En. destruct (existsb (fun src => negb (isnil (pch s src r TT))) (pranks P)) eqn:Ee.
+            - apply existsb_exists in Ee. destruct Ee as [src [_ Hsrc]]. destruct (pch s src r TT) as [|m q] eqn:Ec; [discriminate|exists src, m, q; exact Ec].
+            - exfalso. assert (forallb (fun src => isnil (pch s src r TT)) (pranks P) = true); [|congruence]. apply forallb_forall. intros src Hsrc.
+              destruct (isnil (pch s src r TT)) eqn:Ei; [reflexivity|]. exfalso.
+              assert (Ht : existsb (fun src0 => negb (isnil (pch s src0 r TT))) (pranks P) = true) by (apply existsb_exists; exists src; rewrite Ei; auto). congruence. }
+          destruct Hex as [src [m [q Hc]]]. eexists. eapply stepp_hit; [exact Hp|apply poll_TT|exact Hc].
+        * pose proof (s_prog s st I r) as Hp. rewrite Est in Hp. cbn [prog_of] in Hp.
+          destruct (nothing P (pch s) r TE) eqn:En; [eexists; eapply stepp_miss; [exact Hp|apply poll_TE|exact En]|].
+          assert (Hex : exists src m q, pch s src r TE = m :: q).
+          { unfold nothing in En. destruct (existsb (fun src => negb (isnil (pch s src r TE))) (pranks P)) eqn:Ee.
+            - apply existsb_exists in Ee. destruct Ee as [src [_ Hsrc]]. destruct (pch s src r TE) as [|m q] eqn:Ec; [discriminate|exists src, m, q; exact Ec].
+            - exfalso. assert (forallb (fun src => isnil (pch s src r TE)) (pranks P) = true); [|congruence]. apply forallb_forall. intros src Hsrc.
+              destruct (isnil (pch s src r TE)) eqn:Ei; [reflexivity|]. exfalso.
+              assert (Ht : existsb (fun src0 => negb (isnil (pch s src0 r TE))) (pranks P) = true) by (apply existsb_exists; exists src; rewrite Ei; auto). congruence. }
+          destruct Hex as [src [m [q Hc]]]. eexists. eapply stepp_hit; [exact Hp|apply poll_TE|exact Hc].
+      + left. rewrite (s_prog s st I r), Est. cbn [prog_of]. apply SK_ret.
+      + exfalso. apply (proj1 (s_out s st I r) Est). exact Hrr.
+    - pose proof (SPhi_le st) as Hle.
+      destruct (super_reach_final (SPhi st) s st n I Hf eq_refl ltac:(lia)) as [m [s' [H1 [H2 H3]]]]. exists m, s'. split; [exact H1|]. split; [lia|exact H3].
+  Qed.
+  (* ---- FAIRNESS: every weakly fair run terminates (as for nbx) ------------------------------------------------------------------------------------ *)
+  Definition unsent (r : Z) (st : sstate) : nat :=
+    match st with SSend1 j => (length (R r) - j) + length (extra r) | SSend2 j => length (extra r) - j | _ => 0 end%nat.
+  Definition srho (r : Z) (st : sstate) : nat :=
+    (unsent r st + need1 r st + need2 r st + match st with SDone _ _ | SOut => 0 | _ => 1 end)%nat.
+  Definition SRho (st : Z -> sstate) : nat := list_sum (map (fun r => srho r (st r)) (ranks P)).
+  Definition super_rounds : nat := list_sum (map (fun r => length (R r) + length (extra r) + length (T r) + length (X r) + 1)%nat (ranks P)).
+
+  Lemma SRho_upd st r new : 0 <= r < P -> (SRho (upds st r new) + srho r (st r) = SRho st + srho r new)%nat.
+  Proof.
+    intros Hr. unfold SRho.
+    pose proof (l_sum_upd_eq (fun y => srho y (st y)) (fun y => srho y (upds st r new y)) (ranks P) r (ranks_NoDup P) (proj2 (in_ranks P r) Hr)) as H.
+    cbv beta in H. rewrite upds_same in H. apply H. intros y Hy. rewrite upds_other by exact Hy. reflexivity.
+  Qed.
+
+  Lemma srho_mkloop r f acc xacc : (srho r (mkloop r f acc xacc) <= (length (T r) - length acc) + (length (X r) - length xacc) + 1)%nat.
+  Proof. destruct (mkloop_cases r f acc xacc) as [[-> _]|[-> _]]; unfold srho, need1, need2; cbn [unsent acc_of xacc_of]; lia. Qed.
+
+  Lemma sgstep_rho s st r new pb s' : SInv s st -> SInv s' (upds st r new) -> sgstep r (st r) new pb ->
+    if pb then (srho r new < srho r (st r))%nat else srho r new = srho r (st r).
+  Proof.
+    intros I I' Hg.
+    pose proof (acc_len s' _ r I') as Hl1. pose proof (xacc_len s' _ r I') as Hl2. rewrite upds_same in Hl1, Hl2.
+    remember (st r) as old eqn:Eo. destruct Hg.
+    - pose proof (s_send1 s st I r j (eq_sym Eo)) as Hj. unfold next1. destruct (Nat.ltb_spec (S j) (length (R r))); [unfold srho, need1, need2; cbn [unsent acc_of xacc_of length]; lia|].
+      unfold enter2. destruct (Nat.ltb_spec 0 (length (extra r))); [unfold srho, need1, need2; cbn [unsent acc_of xacc_of length]; lia|].
+      pose proof (srho_mkloop r fuel [] []) as H1. cbn [length] in H1. unfold srho at 2, need1, need2. cbn [unsent acc_of xacc_of length]. lia.
+    - pose proof (s_send2 s st I r j (eq_sym Eo)) as Hj. unfold next2. destruct (Nat.ltb_spec (S j) (length (extra r))); [unfold srho, need1, need2; cbn [unsent acc_of xacc_of length]; lia|].
+      pose proof (srho_mkloop r fuel [] []) as H1. cbn [length] in H1. unfold srho at 2, need1, need2. cbn [unsent acc_of xacc_of length]. lia.
+    - destruct (mkloop_attrs r f (x :: acc) xacc) as [A1 [A2 _]]. rewrite A1 in Hl1. rewrite A2 in Hl2. cbn [length] in Hl1.
+      pose proof (srho_mkloop r f (x :: acc) xacc) as H1. cbn [length] in H1. unfold srho at 2, need1, need2. cbn [unsent acc_of xacc_of length]. lia.
+    - reflexivity.
+    - destruct (mkloop_attrs r f acc (x :: xacc)) as [A1 [A2 _]]. rewrite A1 in Hl1. rewrite A2 in Hl2. cbn [length] in Hl2.
+      pose proof (srho_mkloop r f acc (x :: xacc)) as H1. cbn [length] in H1. unfold srho at 2, need1, need2. cbn [unsent acc_of xacc_of length]. lia.
+    - reflexivity.
+  Qed.
+
+  Lemma SRho_step s st r new pb s' : SInv s st -> SInv s' (upds st r new) -> 0 <= r < P -> sgstep r (st r) new pb ->
+    if pb then (SRho (upds st r new) < SRho st)%nat else SRho (upds st r new) = SRho st.
+  Proof. intros I I' Hr Hg. pose proof (sgstep_rho s st r new pb s' I I' Hg). pose proof (SRho_upd st r new Hr). destruct pb; lia. Qed.
+
+  Inductive srunl : list Z -> pst -> pst -> Prop :=
+  | srunl_nil s : srunl [] s s
+  | srunl_cons r ls s s1 s2 : step_p P super_poll super_stags s r s1 -> srunl ls s1 s2 -> srunl (r :: ls) s s2.
+
+  Lemma step_in_range s st r s' : SInv s st -> step_p P super_poll super_stags s r s' -> 0 <= r < P.
+  Proof.
+    intros I Hs. apply (in_range_of s st r I). intros E. pose proof (s_prog s st I r) as Hp. rewrite E in Hp. cbn [prog_of] in Hp.
+    inversion Hs; subst; congruence.
+  Qed.
+
+  Lemma srho_run_le : forall ls s st s', SInv s st -> srunl ls s s' -> exists st', SInv s' st' /\ (SRho st' <= SRho st)%nat.
+  Proof.
+    induction ls as [|y ls IH]; intros s st s' I Hr; inversion Hr as [|? ? ? s1 ? Hs Hrest]; subst; [exists st; split; [exact I|lia]|].
+    destruct (SInv_step s st y s1 I Hs) as [new [pb [Hg [_ I1]]]]. pose proof (SRho_step s st y new pb s1 I I1 (step_in_range s st y s1 I Hs) Hg) as HRho.
+    destruct (IH s1 _ s' I1 Hrest) as [st' [I' Hle]]. exists st'. split; [exact I'|]. destruct pb; lia.
+  Qed.
+
+  (* scrit st c k: the k-th step of c from now (k = 1 or 2) is productive if only unproductive steps happen before *)
+  Inductive scrit (st : Z -> sstate) (c : Z) : nat -> Prop :=
+  | sc_send : 0 <= c < P -> is_send (st c) = true -> scrit st c 1
+  | sc_loop f acc xacc p : 0 <= c < P -> nosend st -> st c = SLoop f acc xacc p ->
+      scrit st c (match p with AtTrue => if (need1 c (st c) =? 0)%nat then 2 else 1 | AtExtra => if (need2 c (st c) =? 0)%nat then 2 else 1 end).
+
+  Lemma scrit_pos st c k : scrit st c k -> (1 <= k <= 2)%nat /\ 0 <= c < P /\ is_done (st c) = false /\ st c <> SOut.
+  Proof.
+    intros H. destruct H as [Hc E|f acc xacc p Hc _ E].
+    - split; [lia|]. split; [exact Hc|]. destruct (st c); try discriminate; (split; [reflexivity|discriminate]).
+    - rewrite E. split; [destruct p; destruct (_ =? _)%nat; lia|]. split; [exact Hc|]. split; [reflexivity|discriminate].
+  Qed.
+
+  Lemma scrit_exists s st : SInv s st -> (exists r, 0 <= r < P /\ is_done (st r) = false) -> exists c k, scrit st c k.
+  Proof.
+    intros I [r0 [Hr0 Hnd0]].
+    destruct (find_rank P (fun r => is_send (st r))) as [[r [Hr Hp]]|Hnosend]; [exists r, 1%nat; apply sc_send; assumption|].
+    destruct (st r0) as [j|j|f acc xacc p|acc xacc|] eqn:Est; try discriminate.
+    - specialize (Hnosend r0 Hr0). rewrite Est in Hnosend. discriminate.
+    - specialize (Hnosend r0 Hr0). rewrite Est in Hnosend. discriminate.
+    - exists r0. eexists. eapply (sc_loop st r0 f acc xacc p); eassumption.
+    - exfalso. apply (proj1 (s_out s st I r0) Est). exact Hr0.
+  Qed.
+
+  Lemma sidle_attrs y old new : sgstep y old new false -> is_send new = false /\ is_send old = false /\ acc_of new = acc_of old /\ xacc_of new = xacc_of old.
+  Proof. intros H. inversion H; subst; cbn; auto. Qed.
+
+  Lemma scrit_other st c k y new : scrit st c k -> y <> c -> sgstep y (st y) new false -> scrit (upds st y new) c k.
+  Proof.
+    intros Hc Hy Hg. destruct (sidle_attrs y _ _ Hg) as [A [B _]]. destruct Hc as [Hcr E|f acc xacc p Hcr Hns E].
+    - apply sc_send; [exact Hcr|rewrite upds_other by (intros X0; apply Hy; auto); exact E].
+    - assert (E' : upds st y new c = SLoop f acc xacc p) by (rewrite upds_other by (intros X0; apply Hy; auto); exact E).
+      assert (Ec : upds st y new c = st c) by (apply upds_other; intros X0; apply Hy; auto). rewrite <- Ec. eapply sc_loop; [exact Hcr| |exact E'].
+      intros z Hz. unfold upds. destruct (Z.eqb_spec z y) as [Ez|Ez]; [exact A|apply Hns; exact Hz].
+  Qed.
+
+  Lemma sc_loop' st c f acc xacc p k : 0 <= c < P -> nosend st -> st c = SLoop f acc xacc p ->
+    k = (match p with AtTrue => if (need1 c (SLoop f acc xacc p) =? 0)%nat then 2 else 1 | AtExtra => if (need2 c (SLoop f acc xacc p) =? 0)%nat then 2 else 1 end)%nat ->
+    scrit st c k.
+  Proof. intros Hc Hns E ->. rewrite <- E. eapply sc_loop; eassumption. Qed.
+
+  Lemma scrit_self s st c k new pb : SInv s st -> scrit st c k -> sgstep c (st c) new pb -> sidle_ok s c (st c) pb ->
+    pb = true \/ (k = 2%nat /\ scrit (upds st c new) c 1).
+  Proof.
+    intros I Hc Hg Hi. destruct pb; [left; reflexivity|right]. specialize (Hi eq_refl). destruct (sidle_attrs c _ _ Hg) as [A [B _]].
+    destruct Hc as [Hcr E|f acc xacc p Hcr Hns E]; [congruence|].
+    assert (Hns' : nosend (upds st c new)) by (intros z Hz; unfold upds; destruct (Z.eqb_spec z c) as [Ez|Ez]; [exact A|apply Hns; exact Hz]).
+    pose proof (queue_need s st c I Hcr) as Hqn. rewrite E in Hg, Hi, Hqn. cbn [acc_of xacc_of] in Hqn. inversion Hg; subst.
+    - (* empty TRUE poll *)
+      cbn in Hi. pose proof (s_q s st I c (S f0) acc xacc AtTrue E) as Hq. assert (Hq' : 0 < queue c acc xacc) by (apply Hq; right; discriminate).
+      destruct (Nat.eqb_spec (need1 c (st c)) 0) as [Hn|Hn].
+      + split; [reflexivity|]. rewrite E in Hn.
+        assert (Hn2 : (need2 c (SLoop f0 acc xacc AtExtra) =? 0)%nat = false) by (apply Nat.eqb_neq; unfold need1, need2 in *; cbn [acc_of xacc_of] in *; lia).
+        apply (sc_loop' _ c f0 acc xacc AtExtra 1%nat Hcr Hns' (upds_same _ _ _)). rewrite Hn2. reflexivity.
+      + exfalso. destruct (pending_TT s st c I Hns Hcr Hn) as [a [Ha Hch]]. rewrite nothing_spec in Hi. rewrite (Hi a Ha) in Hch. discriminate.
+    - (* empty EXTRA poll *)
+      cbn in Hi. assert (Hq' : 0 < queue c acc xacc) by (apply (s_q s st I c f acc xacc AtExtra E); left; reflexivity).
+      destruct (Nat.eqb_spec (need2 c (st c)) 0) as [Hn|Hn].
+      + split; [reflexivity|]. rewrite E in Hn.
+        assert (Hn1 : (need1 c (SLoop f acc xacc AtTrue) =? 0)%nat = false) by (apply Nat.eqb_neq; unfold need1, need2 in *; cbn [acc_of xacc_of] in *; lia).
+        apply (sc_loop' _ c f acc xacc AtTrue 1%nat Hcr Hns' (upds_same _ _ _)). rewrite Hn1. reflexivity.
+      + exfalso. destruct (pending_TE s st c I Hns Hcr Hn) as [a [Ha Hch]]. rewrite nothing_spec in Hi. rewrite (Hi a Ha) in Hch. discriminate.
+  Qed.
+  Definition scnt (r : Z) (ls : list Z) : nat := count_occ Z.eq_dec ls r.
+
+  Lemma sidle_run : forall ls s st s' c k, SInv s st -> scrit st c k -> srunl ls s s' ->
+    (exists st', SInv s' st' /\ (SRho st' < SRho st)%nat) \/
+    (exists st' k', SInv s' st' /\ SRho st' = SRho st /\ scrit st' c k' /\ (scnt c ls + k' = k)%nat).
+  Proof.
+    induction ls as [|y ls IH]; intros s st s' c k I Hc Hr; inversion Hr as [|? ? ? s1 ? Hs Hrest]; subst.
+    - right. exists st, k. cbn. auto.
+    - destruct (SInv_step s st y s1 I Hs) as [new [pb [Hg [Hi I1]]]].
+      pose proof (SRho_step s st y new pb s1 I I1 (step_in_range s st y s1 I Hs) Hg) as HRho.
+      destruct pb.
+      + left. destruct (srho_run_le ls s1 _ s' I1 Hrest) as [st' [I' Hle]]. exists st'. split; [exact I'|lia].
+      + destruct (Z.eq_dec y c) as [->|Hy].
+        * destruct (scrit_self s st c k new false I Hc Hg Hi) as [E|[-> Hc1]]; [discriminate|].
+          destruct (IH s1 _ s' c 1%nat I1 Hc1 Hrest) as [[st' [I' Hlt]]|[st' [k' [I' [E' [Hc' Hcnt]]]]]].
+          -- left. exists st'. split; [exact I'|lia].
+          -- right. exists st', k'. split; [exact I'|]. split; [lia|]. split; [exact Hc'|]. unfold scnt in *. cbn [count_occ]. destruct (Z.eq_dec c c); [lia|contradiction].
+        * pose proof (scrit_other st c k y new Hc Hy Hg) as Hc1.
+          destruct (IH s1 _ s' c k I1 Hc1 Hrest) as [[st' [I' Hlt]]|[st' [k' [I' [E' [Hc' Hcnt]]]]]].
+          -- left. exists st'. split; [exact I'|lia].
+          -- right. exists st', k'. split; [exact I'|]. split; [lia|]. split; [exact Hc'|]. unfold scnt in *. cbn [count_occ]. destruct (Z.eq_dec y c); [contradiction|exact Hcnt].
+  Qed.
+
+  (* a FAIR SEGMENT: every rank of the communicator has returned at its end or has moved at least twice in it *)
+  Definition sfair_seg (ls : list Z) (s1 : pst) : Prop := forall r, 0 <= r < P -> (exists o, ppr s1 r = Ret o) \/ (2 <= scnt r ls)%nat.
+
+  Lemma ssegment_productive ls s st s' : SInv s st -> srunl ls s s' -> (exists r, 0 <= r < P /\ is_done (st r) = false) -> sfair_seg ls s' ->
+    exists st', SInv s' st' /\ (SRho st' < SRho st)%nat.
+  Proof.
+    intros I Hr Hnd Hfair. destruct (scrit_exists s st I Hnd) as [c [k Hc]].
+    destruct (sidle_run ls s st s' c k I Hc Hr) as [H|[st' [k' [I' [_ [Hc' Hcnt]]]]]]; [exact H|exfalso].
+    destruct (scrit_pos st c k Hc) as [Hk _]. destruct (scrit_pos st' c k' Hc') as [Hk' [Hcr [Hnd' Hno']]].
+    destruct (Hfair c Hcr) as [[o Ho]|H2]; [|lia]. destruct (not_ret s' st' c I' Hcr Hnd') as [k0 [a Hk0]]. congruence.
+  Qed.
+
+  Inductive sfair_segs : nat -> pst -> pst -> Prop :=
+  | sfs_nil s : sfair_segs 0 s s
+  | sfs_cons k ls s s1 s2 : srunl ls s s1 -> sfair_seg ls s1 -> sfair_segs k s1 s2 -> sfair_segs (S k) s s2.
+
+  Lemma all_done_final s st : SInv s st -> (forall r, 0 <= r < P -> is_done (st r) = true) -> pfinal s.
+  Proof.
+    intros I Hall r. rewrite (s_prog s st I r). destruct (Z_le_dec 0 r) as [H0|H0]; [destruct (Z_lt_dec r P) as [H1|H1]|].
+    - specialize (Hall r (conj H0 H1)). destruct (st r) as [?|?|? ? ? ?|acc xacc|]; try discriminate. cbn [prog_of]. apply SK_ret.
+    - rewrite (proj2 (s_out s st I r)) by lia. cbn [prog_of]. eauto.
+    - rewrite (proj2 (s_out s st I r)) by lia. cbn [prog_of]. eauto.
+  Qed.
+
+  Lemma srunl_final ls s s' : pfinal s -> srunl ls s s' -> s' = s.
+  Proof. intros Hf Hr. inversion Hr as [|? ? ? s1 ? Hs Hrest]; subst; [reflexivity|]. exfalso. eapply pfinal_no_step; eauto. Qed.
+  Lemma sfair_segs_final k s s' : pfinal s -> sfair_segs k s s' -> s' = s.
+  Proof. intros Hf H. induction H as [|k ls s s1 s2 Hr _ _ IH]; [reflexivity|]. rewrite (srunl_final ls s s1 Hf Hr) in IH. apply IH. exact Hf. Qed.
+
+  Theorem sfair_final : forall k s st s', SInv s st -> sfair_segs k s s' -> (SRho st <= k)%nat -> pfinal s'.
+  Proof.
+    induction k as [|k IH]; intros s st s' I Hfs Hle.
+    - inversion Hfs; subst. destruct (find_rank P (fun r => negb (is_done (st r)))) as [[r [Hr Hp]]|Hall].
+      + exfalso. apply negb_true_iff in Hp.
+        assert (H1 : (1 <= srho r (st r))%nat) by (unfold srho; destruct (st r) as [?|?|? ? ? ?|? ?|] eqn:E; try lia; try discriminate; exfalso; apply (proj1 (s_out s' st I r) E); exact Hr).
+        assert (H2 : (srho r (st r) <= SRho st)%nat).
+        { unfold SRho. pose proof (proj2 (in_ranks P r) Hr) as Hin. induction (ranks P) as [|x l IHl]; [contradiction|]. cbn [map list_sum fold_right].
+          change (fold_right Nat.add 0%nat (map (fun r0 => srho r0 (st r0)) l)) with (list_sum (map (fun r0 => srho r0 (st r0)) l)).
+          destruct Hin as [->|Hin]; [lia|specialize (IHl Hin); lia]. }
+        lia.
+      + apply (all_done_final s' st I). intros r Hr. specialize (Hall r Hr). apply negb_false_iff. exact Hall.
+    - inversion Hfs as [|? ls ? s1 ? Hr Hfair Hrest]; subst.
+      destruct (find_rank P (fun r => negb (is_done (st r)))) as [[r [Hr0 Hp]]|Hall].
+      + apply negb_true_iff in Hp. destruct (ssegment_productive ls s st s1 I Hr (ex_intro _ r (conj Hr0 Hp)) Hfair) as [st1 [I1 Hlt]].
+        apply (IH s1 st1 s' I1 Hrest). lia.
+      + assert (Hf : pfinal s) by (apply (all_done_final s st I); intros r Hr0; specialize (Hall r Hr0); apply negb_false_iff; exact Hall).
+        rewrite (sfair_segs_final (S k) s s' Hf Hfs). exact Hf.
+  Qed.
+
+  Lemma SRho_init : (SRho sst0 <= super_rounds)%nat.
+  Proof.
+    unfold SRho, super_rounds. apply SemRounds.list_sum_le. intros r Hr. apply in_ranks in Hr. unfold sst0. rewrite (proj2 (inr_spec P r) Hr).
+    unfold next1. destruct (Nat.ltb_spec 0 (length (R r))); [unfold srho, need1, need2; cbn [unsent acc_of xacc_of length]; lia|].
+    unfold enter2. destruct (Nat.ltb_spec 0 (length (extra r))); [unfold srho, need1, need2; cbn [unsent acc_of xacc_of length]; lia|].
+    pose proof (srho_mkloop r fuel [] []) as H1. cbn [length] in H1. lia.
+  Qed.
+
+  (* NO ENDLESS POLLING UNDER FAIRNESS: a run from the initial state that consists of super_rounds fair segments - or more - ends final *)
+  Theorem super_fair_termination k s : sfair_segs k super_sys s -> (super_rounds <= k)%nat -> pfinal s.
+  Proof. intros H Hk. apply (sfair_final k super_sys sst0 s SInv_init H). pose proof SRho_init. lia. Qed.
 End SuperSched.
+
+(* the contract of the callback in the form of C01/SupersetProofs.v: its super senders are the ranks that list r together with the ranks
+   whose extra receivers contain r, each once *)
+Lemma contract_length P (R extra supers : Z -> list Z) :
+  (forall r, 0 <= r < P -> Permutation (supers r) (transpose P R r ++ X P extra r)) ->
+  forall r, 0 <= r < P -> length (supers r) = (length (T P R r) + length (X P extra r))%nat.
+Proof. intros H r Hr. rewrite (Permutation_length (H r Hr)), app_length. reflexivity. Qed.
+
+(* the system runs the program notify_prog gives for typ = 8 (superset) without payload *)
+Lemma super_is_notify_prog fuel P me ntop nint nbot sorted (R : list Z) sz eager extra supers :
+  notify_prog fuel 8 P me ntop nint nbot sorted R None sz eager extra supers = super_core fuel R None extra supers sorted (fun s g => Ret (result s g)).
+Proof. destruct eager; reflexivity. Qed.
